@@ -1,1 +1,12 @@
-//! vsec: shared DNSSEC glue of the C06 / C07 checks.
+//! vsec: shared DNSSEC glue of the C06 / C07 checks — fixed keys, signing helpers with full
+//! control over the RRSIG fields, scripted upstream `DnsHandle`s, the simulated hierarchy.
+pub mod keys;
+pub mod sign;
+pub mod upstream;
+
+use hickory_proto::rr::Name;
+use std::str::FromStr;
+
+pub fn n(s: &str) -> Name {
+    Name::from_str(s).unwrap()
+}
